@@ -30,13 +30,13 @@ import (
 // the code under test that have been reported (flip to true to see them again).
 const (
 	// a header block split into HEADERS + CONTINUATION frames
-	c15GenContinuation = false
+	c15GenContinuation = true
 	// a server RST_STREAM that arrives before any response HEADERS
-	c15GenRSTBeforeResponse = false
+	c15GenRSTBeforeResponse = true
 	// response trailers (a second response HEADERS) on a stream without test name
-	c15GenUnnamedTrailers = false
+	c15GenUnnamedTrailers = true
 	// (c15-bytes only) response-direction DATA on a stream before its response HEADERS
-	c15GenDataBeforeResponseHeaders = false
+	c15GenDataBeforeResponseHeaders = true
 )
 
 func init() {
